@@ -249,6 +249,7 @@ func vMon(f func()) {
 	defer vmonMu.Unlock()
 	f()
 }
+func vMonC(class int, f func()) { vMon(f) }
 func vBlockUntil(f func() bool) {
 	deadline := time.Now().Add(3 * time.Second)
 	for {
@@ -267,6 +268,7 @@ func vBlockUntil(f func() bool) {
 		time.Sleep(200 * time.Microsecond)
 	}
 }
+func vBlockUntilAny(f func() bool) { vBlockUntil(f) }
 func vQuiesce() int {
 	deadline := time.Now().Add(500 * time.Millisecond)
 	for time.Now().Before(deadline) {
@@ -297,6 +299,15 @@ func vGuardedBy(mu *sync.RWMutex, data *map[string]any) {}
 func vTimers() int                                       { return -1 }
 func vSections(mu *sync.RWMutex) int                     { return -1 }
 func vPick(idx int, opts ...any) any { return opts[idx] }
+func vRaceChecked(p any) {}
+func vThreadsCreated() int { return -1 }
+func vLockFree(mu *sync.RWMutex) bool {
+	if mu.TryLock() {
+		mu.Unlock()
+		return true
+	}
+	return false
+}
 func vFail(msg string) {
 	vmu.Lock()
 	vout.Fail = msg
